@@ -36,7 +36,7 @@ import (
 	"sync"
 	"time"
 
-	json "go.starlark.net/lib/json"
+	sjson "go.starlark.net/lib/json"
 	"go.starlark.net/starlark"
 	"go.starlark.net/starlarkstruct"
 	"go.starlark.net/syntax"
@@ -751,7 +751,7 @@ func encodeModule(r *hx.Rand) string {
 }
 
 func encodeTranscript(g starlark.StringDict, th *starlark.Thread, iters int) []string {
-	enc, ind, dec := json.Module.Members["encode"], json.Module.Members["encode_indent"], json.Module.Members["decode"]
+	enc, ind, dec := sjson.Module.Members["encode"], sjson.Module.Members["encode_indent"], sjson.Module.Members["decode"]
 	var out []string
 	for it := 0; it < iters; it++ {
 		for _, name := range []string{"strs", "table", "record", "mixed"} {
